@@ -92,4 +92,33 @@ theorem foldedTrack_weight (w : Event → Nat) {src : List Event} {p q L : Nat} 
     simp only [hb, ne_eq, not_false_eq_true, if_true, wsum_append, wsum_cons, wsum_nil, hA]
     omega
 
+/-! ## small facts about the inserted events -/
+
+theorem lsEv_kind : lsEv.kind = .loopStart := by decide
+theorem lbEv_kind : lbEv.kind = .loopBreak := by decide
+theorem leEv_kind (n : Int) : (leEv n).kind = .loopEnd := by
+  show kindOfType ev_LOOP_END = .loopEnd
+  decide
+
+theorem jumpEvent_kind (subId : Int) : (jumpEvent subId).kind = .jump := by
+  show kindOfType ev_JUMP = .jump
+  decide
+
+theorem lookup_map_snd {β γ : Type} (l : List (Nat × β)) (f : Nat → β → γ) (k : Nat) :
+    (l.map fun p => (p.1, f p.1 p.2)).lookup k = (l.lookup k).map (f k) := by
+  induction l with
+  | nil => rfl
+  | cons p r ih =>
+    by_cases h : k = p.1
+    · subst h; simp [List.lookup]
+    · have h' : (k == p.1) = false := by simp [h]
+      simp [List.lookup, h', ih]
+
+theorem isBracket_ls : isBracket lsEv = true := by decide
+theorem isBracket_lb : isBracket lbEv = true := by decide
+theorem isBracket_le (n : Int) : isBracket (leEv n) = true := by
+  show (ev_LOOP_END == ev_LOOP_START || ev_LOOP_END == ev_LOOP_END || ev_LOOP_END == ev_LOOP_BREAK) = true
+  decide
+
+
 end Ctrmml.OptSteps
